@@ -45,6 +45,19 @@ type c02Gen struct {
 	// tight: bodies hold the inner statement only (or pass), no probes: the code object then has
 	// no slack in its declared stack size beyond what the statement itself needs (C12)
 	tight bool
+	// reraise: the handler bodies of the outermost try statement may end in a bare `raise`
+	reraise bool
+	// nestedKinds: the kinds a nested compound statement may have (nil: all)
+	nestedKinds []int
+}
+
+// handlerBody: the body of an except clause (level-1 handlers may end in a bare raise)
+func (g *c02Gen) handlerBody(inLoop bool, level int) []ast.Stmt {
+	b := g.body(inLoop, level)
+	if g.reraise && level == 1 && g.inFin == 0 && verifChoice("reraise", 2) == 1 {
+		b = append(b, &ast.Raise{})
+	}
+	return b
 }
 
 func (g *c02Gen) probe() ast.Stmt {
@@ -93,6 +106,15 @@ func (g *c02Gen) inner(inLoop bool, level int) []ast.Stmt {
 	if g.onlyLoops {
 		verifAssume(k-5 == 1 || k-5 == 2)
 	}
+	if g.nestedKinds != nil {
+		ok := false
+		for _, nk := range g.nestedKinds {
+			if k-5 == nk {
+				ok = true
+			}
+		}
+		verifAssume(ok)
+	}
 	return []ast.Stmt{g.compound(k-5, inLoop, level+1)}
 }
 
@@ -123,7 +145,7 @@ func (g *c02Gen) compound(kind int, inLoop bool, level int) ast.Stmt {
 		return &ast.For{Target: &ast.Name{Id: "x", Ctx: ast.Store}, Iter: c02Name("it"), Body: g.body(true, level), Orelse: g.body(inLoop, level)}
 	case 3:
 		h := c02Handlers[verifChoice("handler"+sfx, len(c02Handlers))]
-		return &ast.Try{Body: g.body(inLoop, level), Handlers: []*ast.ExceptHandler{{ExprType: c02Name(h), Body: g.body(inLoop, level)}}, Orelse: g.body(inLoop, level)}
+		return &ast.Try{Body: g.body(inLoop, level), Handlers: []*ast.ExceptHandler{{ExprType: c02Name(h), Body: g.handlerBody(inLoop, level)}}, Orelse: g.body(inLoop, level)}
 	case 4:
 		b := g.body(inLoop, level)
 		g.inFin++
@@ -133,7 +155,7 @@ func (g *c02Gen) compound(kind int, inLoop bool, level int) ast.Stmt {
 	case 5:
 		h := c02Handlers[verifChoice("handler"+sfx, len(c02Handlers))]
 		b := g.body(inLoop, level)
-		hb := g.body(inLoop, level)
+		hb := g.handlerBody(inLoop, level)
 		g.inFin++
 		f := g.body(inLoop, level)
 		g.inFin--
@@ -161,6 +183,9 @@ type c02Ref struct {
 	trues  map[string]int // per condition token: how often true so far
 	nexts  int            // items produced by the iterator
 	failed bool           // the VM did not make the call the reference expects (no outcome recorded)
+	// handling: the exceptions of the except clauses being executed, innermost last
+	// (what a bare `raise` re-raises)
+	handling []string
 }
 
 var c02Tok = map[string]string{"p": "t0", "c": "t1", "c2": "t2", "it": "t3", "m": "t4"}
@@ -236,6 +261,15 @@ func (r *c02Ref) stmt(s ast.Stmt) c02Sig {
 		_, sig := r.call("call(t0,i1,i0,i" + strconv.Itoa(k) + ")")
 		return sig
 	case *ast.Raise:
+		if x.Exc == nil {
+			// re-raise the exception being handled; none: RuntimeError
+			if len(r.handling) == 0 {
+				r.exc = "RuntimeError"
+			} else {
+				r.exc = r.handling[len(r.handling)-1]
+			}
+			return sigRaise
+		}
 		r.exc = string(x.Exc.(*ast.Name).Id)
 		return sigRaise
 	case *ast.Break:
@@ -297,8 +331,10 @@ func (r *c02Ref) stmt(s ast.Stmt) c02Sig {
 		if sig == sigRaise && len(x.Handlers) > 0 {
 			h := string(x.Handlers[0].ExprType.(*ast.Name).Id)
 			if c02Matches(r.exc, h) {
+				r.handling = append(r.handling, r.exc)
 				r.exc = ""
 				sig = r.block(x.Handlers[0].Body)
+				r.handling = r.handling[:len(r.handling)-1]
 			}
 		} else if sig == sigNormal && len(x.Handlers) > 0 {
 			sig = r.block(x.Orelse)
@@ -363,6 +399,8 @@ func c02ExcName(err error) string {
 		return "ValueError"
 	case py.IndexError:
 		return "IndexError"
+	case py.RuntimeError:
+		return "RuntimeError"
 	}
 	return "?"
 }
@@ -380,7 +418,7 @@ func c02Run(body []ast.Stmt) error {
 	globals := py.StringDict{"p": &vm.VTok{ID: 0}, "c": &vm.VTok{ID: 1}, "c2": &vm.VTok{ID: 2}, "it": &vm.VTok{ID: 3}, "m": &vm.VTok{ID: 4},
 		"KeyError": py.KeyError, "ValueError": py.ValueError, "IndexError": py.IndexError, "LookupError": py.LookupError, "Exception": py.ExceptionType}
 	// package initialisation normally makes the built-in types ready (MRO etc.); do it for the ones used
-	for _, t := range []*py.Type{py.BaseException, py.ExceptionType, py.LookupError, py.KeyError, py.IndexError, py.ValueError} { // bases first, as package init does
+	for _, t := range []*py.Type{py.BaseException, py.ExceptionType, py.LookupError, py.KeyError, py.IndexError, py.ValueError, py.RuntimeError} { // bases first, as package init does
 		if rerr := t.Ready(); rerr != nil {
 			return rerr
 		}
@@ -390,8 +428,9 @@ func c02Run(body []ast.Stmt) error {
 	return err
 }
 
-func c02Check(kind int, depth int, hot, hot2 int) {
-	g := &c02Gen{hot: hot, hot2: hot2, depth: depth}
+func c02Check(kind int, depth int, hot, hot2 int) { c02CheckGen(&c02Gen{hot: hot, hot2: hot2, depth: depth}, kind) }
+
+func c02CheckGen(g *c02Gen, kind int) {
 	prog := []ast.Stmt{g.probe(), g.compound(kind, false, 1), g.probe()}
 	vm.VReset(2)
 	err := c02Run(prog)
@@ -450,4 +489,29 @@ func VerifC02FlowNested() {
 		verifAssume(kind == 1 || kind == 2 || kind == 4)
 	}
 	c02Check(kind, 2, hot, hot2)
+}
+
+// the except clause: its body may hold a nested statement (a with that
+// suppresses, a try that catches or lets through, a loop) and may end in a
+// bare `raise`, which re-raises the exception of the clause - not one that a
+// nested statement raised and disposed of meanwhile
+//
+//verif:property C02
+//verif:runinit github.com/go-python/gpython/vm.init#2
+//verif:expect ran
+//verif:maxpaths 60000 600000
+//verif:timeout 400 2400
+func VerifC02Reraise() {
+	kind := 3
+	if verifChoice("fin", 2) == 1 {
+		kind = 5
+	}
+	hot2 := 1 + verifChoice("hot2", 3)
+	g := &c02Gen{hot: 2, hot2: hot2, depth: 2, reraise: true} // slot 2 of a try statement is its handler
+	if verifBound(0, 1) == 0 {
+		// quick: the nested statement is a with or a try/except (the two that dispose of an exception)
+		g.nestedKinds = []int{3, 6}
+		verifAssume(kind == 3)
+	}
+	c02CheckGen(g, kind)
 }
